@@ -1,5 +1,5 @@
 """C12 — serialization: sizes, guards (DESIGN §5 C12: R12.1 … R12.5)."""
-from ..prov import get_an, pp, strip_generics
+from ..prov import get_an, pp, strip_generics, strip_sites
 from ..tyutil import typenum_usize, array_len, strip_ref, generic_args
 from .. import booldec
 from .common import impl_bodies, where, ret_classes, switch_edge, uses_of_local_blocks, explicit_len_guard, is_incorrect_len_err, len_value
@@ -320,6 +320,21 @@ def check_write_exact(rep, facts, b, rule='R12.3'):
 ENCODERS = ('as_bytes', 'to_bytes', 'raw_secret_bytes')     # lossless views/copies of the wrapped dependency value
 
 
+def _whole_input(arg):
+    """the input slice itself, or `&input[..Self::size()]` / `&input[0..Self::size()]` — the same bytes on every accepted path,
+    because the length guard (R12.2, decided separately and reported separately) admits only len == Self::size()"""
+    if arg == ('param', 1):
+        return True
+    x = strip_sites(arg) if arg is not None else None
+    if not (isinstance(x, tuple) and len(x) == 4 and x[0] == 'addr' and x[1] == ('pointee', ('param', 1)) and len(x[2]) == 1):
+        return False
+    sl = x[2][0]
+    if sl[0] != 'slice' or not (sl[1] is None or (sl[1][0] == 'const' and sl[1][2] == 0)):
+        return False
+    hi = sl[2]
+    return hi is not None and hi[0] == 'call' and hi[1].endswith('Serializable::size') and not hi[2]
+
+
 def check_value_flow(rep, facts, fb, we, rule='R12.6'):
     """from_bytes wraps exactly the input bytes; write_exact writes exactly the wrapped value's bytes (no masking,
     truncation or reordering in this crate; losslessness of the dependency encoders themselves is trusted)"""
@@ -348,10 +363,10 @@ def check_value_flow(rep, facts, fb, we, rule='R12.6'):
                 x = x[2][0]
                 how = 'From::from of '
             if x[0] == 'mem' and len(x[3]) == 1 and x[3][0][3] and not x[3][0][1] and x[3][0][2][0] == 'call' and \
-                    x[3][0][2][1].endswith('copy_from_slice') and x[3][0][2][2][1] == ('param', 1):
+                    x[3][0][2][1].endswith('copy_from_slice') and _whole_input(x[3][0][2][2][1]):
                 ok = True
                 how = (how or '') + 'a buffer written once by a whole copy of the input'
-            elif x[0] == 'call' and x[1].endswith('GenericArray::clone_from_slice') and x[2] == (('param', 1),):
+            elif x[0] == 'call' and x[1].endswith('GenericArray::clone_from_slice') and len(x[2]) == 1 and _whole_input(x[2][0]):
                 ok = True
                 how = (how or '') + 'GenericArray::clone_from_slice of the whole input'
             elif x[0] == 'okval':
